@@ -186,6 +186,8 @@ class IRGen:
     def odd_enum(self):
         """enum members with empty / signed / numeric names, empty values, mismatched or non-scalar member types"""
         r = self.rng
+        if self.features.get("tame"):      # fewer inputs on which the passes panic
+            return self.enum()
         vals = []
         for _ in range(r.randint(0, 4)):
             c = r.random()
@@ -239,7 +241,7 @@ class IRGen:
             return None
         names = [r.choice(fam) for _ in range(r.randint(1, 3))] if r.random() < 0.3 else r.sample(fam, r.randint(1, len(fam)))
         bs = self.refs_named(pkg, names)
-        if r.random() < 0.15:
+        if r.random() < 0.15 and not self.features.get("tame"):
             bs.append(self.ref(pkg))
         for b in bs:
             if r.random() < 0.1:
@@ -257,7 +259,7 @@ class IRGen:
     def chain_disj(self, pkg, depth):
         r = self.rng
         c = r.random()
-        if c < 0.015:
+        if c < 0.015 and not self.features.get("tame"):
             branches = [{"k": "scalar", "sk": "null"}, {"k": "scalar", "sk": "null"}]
         elif c < 0.16:
             branches = [{"k": "scalar", "sk": "null"}, self.type(pkg, depth + 1)]
@@ -410,6 +412,9 @@ class IRGen:
                     t = self.struct(p, 0)
                 elif c < 0.62:
                     t = self.ref(p)            # alias
+                    if self.features.get("acyclic_aliases"):
+                        # aliases only point at objects that are not aliases themselves: no reference cycle
+                        t = dict(t, name="__ALIAS_TARGET__")
                 elif c < 0.72:
                     t = self.enum()
                 elif c < 0.8:
@@ -433,6 +438,16 @@ class IRGen:
                 s["entry"] = ep
                 s["entrytype"] = {"k": "ref", "pkg": p, "name": ep}
             out.append(s)
+        if self.features.get("acyclic_aliases"):
+            solid = [(s["pkg"], o["name"]) for s in out for o in s["objects"]
+                     if not (o["type"]["k"] == "ref" and o["type"].get("name") == "__ALIAS_TARGET__")]
+            for s in out:
+                for o in s["objects"]:
+                    if o["type"]["k"] == "ref" and o["type"].get("name") == "__ALIAS_TARGET__":
+                        if solid:
+                            o["type"]["pkg"], o["type"]["name"] = r.choice(solid)
+                        else:
+                            o["type"] = {"k": "scalar", "sk": "string"}
         return out
 
 
